@@ -80,6 +80,37 @@ def parseStep {α : Type} (item : String → Option α) (s : String) : Option (N
         | none => none
   | [] => none
 
+/-- Caller mode step: `<after_ms> <flags> <upd>;…` with flags `-` or distinct letters of `mcu`. -/
+def parseFlags (f : String) : Option (Bool × Bool × Bool) :=
+  if f = "-" then some (false, false, false)
+  else if f.isEmpty then none
+  else f.toList.foldlM (fun (acc : Bool × Bool × Bool) ch =>
+    if ch = 'm' && !acc.1 then some (true, acc.2.1, acc.2.2)
+    else if ch = 'c' && !acc.2.1 then some (acc.1, true, acc.2.2)
+    else if ch = 'u' && !acc.2.2 then some (acc.1, acc.2.1, true)
+    else none) (false, false, false)
+
+def parseStepCaller (s : String) : Option (Nat × (Bool × Bool × Bool) × List (Probe × Nat × Nat)) :=
+  let s := s.trimAscii.toString
+  match s.splitOn " " with
+  | after :: restToks =>
+    if restToks.isEmpty then none else
+    let rest := (" ".intercalate restToks).trimAscii.toString
+    match rest.splitOn " " with
+    | flags :: rest2 =>
+      if rest2.isEmpty then none else
+      match parseFlags flags, parseStep parseUpd (after ++ " " ++ (" ".intercalate rest2).trimAscii.toString) with
+      | some f, some (a, us) => some (a, f, us)
+      | _, _ => none
+    | [] => none
+  | [] => none
+
+def showStepCaller (o : Option Url × Nat × Bool) : String :=
+  let p := match o.1 with
+    | none => "none"
+    | some u => toString u
+  s!"{p},{o.2.1},{if o.2.2 then "F" else "I"}"
+
 def showStep (o : Option Url × Nat) : String :=
   match o.1 with
   | none => s!"none,{o.2}"
@@ -95,6 +126,16 @@ def runSteps (steps : List (Nat × Report)) : String :=
 def handleLine (payload : String) : String :=
   let p := payload.trimAscii.toString
   if p.isEmpty then "bad-input"
+  else if p.startsWith "G " then
+    match ((p.drop 2).toString.splitOn "|").mapM parseStepCaller with
+    | none => "bad-input"
+    | some steps =>
+      let (_, timed) := steps.foldl (fun (acc : Nat × List (Nat × Bool × Report)) st =>
+        let now := acc.1 + st.1
+        let r : Report := { lat := Latencies.build st.2.2, udpV4 := st.2.1.2.2,
+                            captive := if st.2.1.2.1 then some true else none }
+        (now, acc.2 ++ [(now, st.2.1.1, r)])) (0, [])
+      " ".intercalate ((runCaller timed).2.map showStepCaller)
   else if p.startsWith "P " then
     match ((p.drop 2).toString.splitOn "|").mapM (parseStep parseProbe) with
     | none => "bad-input"
